@@ -377,7 +377,8 @@ def tables(cfg, crate, rep):
     found = None
     if len(lits) == 1:
         sv = lits[0][0]
-        pt, et = core(sv.fields.get("permitted_subtrees")).r(), core(sv.fields.get("excluded_subtrees")).r()
+        # (the rendering, plus the places the value depends on: a list filled through `&mut` shows its source there)
+        pt, et = [core(sv.fields.get(f_)).r() + " " + " ".join(sorted(r_ for r_ in roots(sv.fields.get(f_)) if not r_.startswith("atom:"))) for f_ in ("permitted_subtrees", "excluded_subtrees")]
         found = (pt[:120], et[:120])
         ok = ".permitted_subtrees" in pt and ".excluded_subtrees" not in pt and ".excluded_subtrees" in et and ".permitted_subtrees" not in et
     rep.ob("C17.tables", "%s|%s" % (cfg, fn), ok, "permitted/excluded subtrees are imported into the like-named lists", found=found)
